@@ -72,7 +72,6 @@ func TestVerifC08Peerstores(t *testing.T) {
 	a.r.Bounds["stores"] = []string{stores[0].name, stores[1].name, stores[2].name}
 	a.r.Bounds["record_peer_ids"] = "the ID of every generated key; every single-bit edit and every truncation of the signer's own ID; the signer's key under the other multihash (sha2-256 for keys that are normally embedded, identity for keys that are normally hashed); identity multihashes over protobuf-level edits of the signer's marshalled key"
 	addrs := []ma.Multiaddr{ma.StringCast("/ip4/1.2.3.4/tcp/4001"), ma.StringCast("/ip6/2001:db8::1/udp/4001/quic-v1")}
-	sampled := map[string]bool{}
 	for _, k := range keys {
 		if a.stop {
 			break
@@ -177,9 +176,8 @@ func TestVerifC08Peerstores(t *testing.T) {
 							a.r.Violate("peerstore-stores-different-record", fmt.Sprintf("%s: after accepting the honest record of %s the store returns a different record / signer / address set", st.name, k.Name), rp)
 						}
 					}
-					if !sampled[c.kind] && st.name == "pstoreds" {
-						sampled[c.kind] = true
-						a.r.Sample(map[string]any{"signer": k.Name, "signer_id": k.ID.String(), "record_names": c.id.String(), "candidate": c.kind, "accepted": accepted})
+					if !own && st.name == "pstoreds" {
+						a.sample(1, "", map[string]any{"signer": k.Name, "signer_id": k.ID.String(), "record_names": c.id.String(), "candidate": c.kind, "accepted": accepted})
 					}
 				})
 			}
